@@ -31,6 +31,13 @@ def relocation(tool, params, files, rng_times, same_length):
     """generate from 'in' and from a moved, time-touched copy; same_length: the moved path and database name have the
     same string lengths as the original ones, so the comment preamble (which repeats argv) has the same length."""
     E.write_tree('in', files)
+    if files.get('@mirror'):
+        # a sub-tree that mirrors the absolute path of the root itself (a backup of the host's layout): the recorded relative
+        # path must still be the true one (a textual removal of the root string would remove it twice)
+        mp = os.path.join('in', 'mirror', os.path.abspath('in').lstrip(os.sep), 'old_notes.txt')
+        os.makedirs(os.path.dirname(mp), exist_ok=True)
+        open(mp, 'wb').write(files['@mirror'])
+        os.remove(os.path.join('in', '@mirror'))
     rc1, _ = E.generate(tool, 'in', 'ecc3.db', params + ['--ecc_algo', '3'])
     dst, db2 = ('mv', 'ecm3.db') if same_length else ('moved/else/where', 'ecc_moved.db')
     shutil.copytree('in', dst)
@@ -73,6 +80,12 @@ def codec_level(ctx):
         sk, kc = (n // 2, 0 if k == n // 2 else k) if n > 40 else (k, 0)
         L = rng.choice([k, max(1, k - 1), rng.randrange(1, k + 1)])
         cases.append((n, sk, kc, bytes(rng.randrange(256) for _ in range(L))))
+    # the whole-file tool's way of using the codec: ONE object ECCMan(n, 1), the geometry given per call; null and short blocks
+    for n in (20, 64, 255):
+        for kc in (n // 2, n - 1, max(2, n // 3)):
+            for L in (kc, max(1, kc - 3), 1):
+                cases.append((n, 1, kc, bytes(L)))
+                cases.append((n, 1, kc, bytes(L - 1) + b'\x01' if L > 1 else b'\x00'))
     outs = ctx.model.run(['enc 3 %d %d %d %s' % (n, sk, kc, hx(m)) for n, sk, kc, m in cases])
     for (n, sk, kc, m), o in zip(cases, outs):
         ps = {}
@@ -131,6 +144,7 @@ def trees(ctx):
          {'x': rb(64), 'y/y': rb(65), 'y/z z': rb(1024)},
          {'only.bin': rb(2000)},
          # folders holding only sub-folders, several siblings: the walk order must not depend on the listing order
+         {'@mirror': rb(90), 'plain.txt': rb(60)},
          {'p/2019/a.jpg': rb(120), 'p/2020/b.jpg': rb(130), 'p/2018/c.jpg': rb(140), 'p/2021/x/y.jpg': rb(10), 'q/r/s/t': rb(70), 'q/a/u': rb(71)}]
     if ctx.tier == 'thorough':
         for _ in range(6):
@@ -175,6 +189,8 @@ def tool_level(ctx):
                             ctx.fail(dict(case, what='relocation', same_length=same), r)
                         else:
                             ctx.traces += 1
+                    if '@mirror' in files:      # the mirror tree exists for the relocation check only
+                        ctx.count('tool_level_trees'); continue
                     # cross-codec repair: damage one byte in the protected region of every non-empty file
                     dmg = {}
                     for p, c in files.items():
